@@ -114,6 +114,8 @@ def run(tier, rnd, out):
     run_stream(out, "boundaries", cs, world.run_cases_fresh(cs))
     cs = oc.mixed_cases(rnd, 30 if tier == "quick" else 1500, KINDS)
     run_stream(out, "random", cs, world.run_cases_fresh(cs))
+    cs = world.with_delays(rnd, oc.mixed_cases(rnd, 30 if tier == "quick" else 600, KINDS))       # a device that takes from 0.2 s to a day to answer (virtual clock)
+    run_stream(out, "random-with-slow-replies", cs, world.run_cases_fresh(cs))
     cs, texts = run_on_one_object(rnd, 40 if tier == "quick" else 1500)
     run_stream(out, "sequences-on-one-object", cs, texts)
     out.exhaustive = False
